@@ -296,7 +296,7 @@ fn listing_ok(w: &World, m: &ObjectMeta) -> Result<(), String> {
     match w.truth.get(&loc) {
         None => Err(format!("listing shows `{loc}` (size {}) which was never written", m.size)),
         Some(t) => {
-            if m.size != t.size || m.e_tag != t.e_tag || m.last_modified.timestamp_millis() != t.last_modified_ms {
+            if m.size != t.size || m.e_tag != t.e_tag || (!t.legacy && m.last_modified.timestamp_millis() != t.last_modified_ms) {
                 Err(format!("listing entry of `{loc}`: size={} e_tag={:?} lm={} but written size={} e_tag={:?} lm={}", m.size, m.e_tag, m.last_modified.timestamp_millis(), t.size, t.e_tag, t.last_modified_ms))
             } else {
                 Ok(())
@@ -407,9 +407,9 @@ pub async fn probe(w: &World, store: &Store, temp: &str, tamper: &str, out: &mut
         match store.head(&Path::from(loc.as_str())).await {
             Err(e) => out.hit(&format!("oracle:{kind}:head:{}", classify(&e))),
             Ok(m) => {
-                if !phantom && m.size == size && m.e_tag == e_tag && m.last_modified.timestamp_millis() == lm {
+                if !phantom && m.size == size && m.e_tag == e_tag && (w.truth.get(loc).is_some_and(|t| t.legacy) || m.last_modified.timestamp_millis() == lm) {
                     out.hit(&format!("oracle:{kind}:head:original"));
-                } else if rollback_of.is_some_and(|h| &h.loc == loc && h.size == m.size && h.e_tag == m.e_tag && h.last_modified_ms == m.last_modified.timestamp_millis()) {
+                } else if rollback_of.is_some_and(|h| &h.loc == loc && h.size == m.size && h.e_tag == m.e_tag && (h.legacy || h.last_modified_ms == m.last_modified.timestamp_millis())) {
                     out.hit("oracle:rollback:head:old-commit-of-same-key");
                 } else {
                     out.fail(Failure::new(&fkey("head", Some(loc)), &format!("[{temp} cache] head(`{loc}`) after tamper `{tamper}` reports an object that was never written"), Some(tamper), &format!("size={size} e_tag={e_tag:?} lm={lm}, or an error"), &format!("size={} e_tag={:?} lm={}", m.size, m.e_tag, m.last_modified.timestamp_millis())));
@@ -427,7 +427,7 @@ pub async fn probe(w: &World, store: &Store, temp: &str, tamper: &str, out: &mut
                 let mut rolled = false;
                 for m in &es {
                     if let Err(msg) = listing_ok(w, m) {
-                        let old_commit = rollback_of.is_some_and(|h| h.loc == m.location.as_ref() && h.size == m.size && h.e_tag == m.e_tag && h.last_modified_ms == m.last_modified.timestamp_millis());
+                        let old_commit = rollback_of.is_some_and(|h| h.loc == m.location.as_ref() && h.size == m.size && h.e_tag == m.e_tag && (h.legacy || h.last_modified_ms == m.last_modified.timestamp_millis()));
                         if old_commit {
                             rolled = true;
                         } else {
@@ -503,7 +503,7 @@ pub async fn model_compare(w: &World, line: &str, undo: &Undo, model: &mut Model
                             }
                             i = j;
                         }
-                        model.ask(&format!("stream {} {c} {} {} {} {}", t.size, rr_s / c, ps - rr_s, pe - ps, runs.join(",")))
+                        crate::check::ask(model, out, &format!("stream {} {c} {} {} {} {}", t.size, rr_s / c, ps - rr_s, pe - ps, runs.join(",")))
                     }
                 };
                 let o = get_collect(&cold, loc, r.opts(false)).await;
@@ -520,13 +520,13 @@ pub async fn model_compare(w: &World, line: &str, undo: &Undo, model: &mut Model
             }
         } else {
             let Some(bytes) = current(w, &meta_path).await else { continue };
-            let ask = |model: &mut ModelProc, entry: &str| -> String {
+            let ask = |model: &mut ModelProc, out: &mut Outcome, entry: &str| -> String {
                 match metadoc::decode(&bytes) {
                     Err(_) => "err:decode".to_string(),
                     Ok(doc) => {
                         let tagok = match (&doc.an, &doc.at) {
                             (Some(an), Some(at)) => {
-                                let aad = crate::check::unhex(&model.ask(&crate::check::maad_line(loc, &doc)));
+                                let aad = crate::check::unhex(&crate::check::ask(model, out, &crate::check::maad_line(loc, &doc)));
                                 aad.is_some_and(|aad| gcm.open(an, &aad, &[], at).is_some())
                             }
                             _ => false,
@@ -537,7 +537,7 @@ pub async fn model_compare(w: &World, line: &str, undo: &Undo, model: &mut Model
                             None => format!("data/{loc}"),
                         };
                         let present = payload_present.contains(&ptr);
-                        let ans = model.ask(&format!("verify {} {} {} {av} {} {} {} {entry}", w.strict as u8, doc.an.is_some() as u8, doc.at.is_some() as u8, doc.g.is_some() as u8, tagok as u8, present as u8));
+                        let ans = crate::check::ask(model, out, &format!("verify {} {} {} {av} {} {} {} {entry}", w.strict as u8, doc.an.is_some() as u8, doc.at.is_some() as u8, doc.g.is_some() as u8, tagok as u8, present as u8));
                         if ans.starts_with("ok:") { "ok".to_string() } else { ans }
                     }
                 }
@@ -547,14 +547,14 @@ pub async fn model_compare(w: &World, line: &str, undo: &Undo, model: &mut Model
             if !matches!(kind, "strip" | "strip-forge" | "setint" | "setnull" | "settext" | "tags" | "swapobj" | "copyobj" | "forge-legacy-empty") {
                 continue;
             }
-            let model_line = ask(model, "head");
+            let model_line = ask(model, out, "head");
             let impl_line = match cold.head(&Path::from(loc.as_str())).await {
                 Ok(_) => "ok".to_string(),
                 Err(e) => classify(&e).to_string(),
             };
             // listing: the entry of this key (compat mode skips undecodable documents, strict mode fails)
             if undo.len() == 1 {
-                let m = ask(model, "list");
+                let m = ask(model, out, "list");
                 let model_list = if m == "err:decode" && !w.strict { "skipped".to_string() } else { m };
                 let impl_list = match cold.list(None).try_collect::<Vec<ObjectMeta>>().await {
                     Err(e) => classify(&e).to_string(),
@@ -649,12 +649,12 @@ impl ReadPath {
 /// A *short* answer is wrong bytes: lengths are compared exactly.
 pub async fn read_exact(store: &Store, loc: &str, p: &ReadPath, want: &[&crate::world::Hist], truth: Option<&crate::world::Truth>) -> (String, bool) {
     // candidates: (plaintext, size, e_tag, lm)
-    let mut cands: Vec<(&[u8], u64, &Option<String>, i64)> = Vec::new();
+    let mut cands: Vec<(&[u8], u64, &Option<String>, Option<i64>)> = Vec::new();
     if let Some(t) = truth {
-        cands.push((&t.plain, t.size, &t.e_tag, t.last_modified_ms));
+        cands.push((&t.plain, t.size, &t.e_tag, (!t.legacy).then_some(t.last_modified_ms)));
     }
     for h in want {
-        cands.push((&h.plain, h.size, &h.e_tag, h.last_modified_ms));
+        cands.push((&h.plain, h.size, &h.e_tag, (!h.legacy).then_some(h.last_modified_ms)));
     }
     match p {
         ReadPath::Get(r) => {
@@ -688,7 +688,7 @@ pub async fn read_exact(store: &Store, loc: &str, p: &ReadPath, want: &[&crate::
         ReadPath::Head => match store.head(&Path::from(loc)).await {
             Err(e) => (classify(&e).to_string(), true),
             Ok(m) => {
-                let ok = cands.iter().any(|(_, size, et, lm)| m.size == *size && &m.e_tag == *et && m.last_modified.timestamp_millis() == *lm);
+                let ok = cands.iter().any(|(_, size, et, lm)| m.size == *size && &m.e_tag == *et && lm.is_none_or(|lm| m.last_modified.timestamp_millis() == lm));
                 (format!("ok {} {:?}", m.size, m.e_tag), ok)
             }
         },
@@ -756,6 +756,13 @@ pub async fn stale_repoint(w: &World, line: &str, out: &mut Outcome) -> bool {
         },
         Err(_) => return false,
     };
+    if new_ptr == t.payload_path {
+        // mutable legacy layout: the "other generation" lives under the very same key, nothing goes stale
+        out.hit("tamper:not-applicable");
+        return false;
+    }
+    // an unsealed legacy-shaped replacement is accepted by design in compat mode (the known root cause)
+    let through_legacy = !w.strict && metadoc::decode(&doc_bytes).is_ok_and(|d| d.an.is_none() && d.at.is_none() && d.av.is_none() && d.g.is_none());
     let paths = read_paths(t.size, w.chunk);
     // one warm instance per read path, warmed *before* the modification
     let mut warm: Vec<Store> = Vec::new();
@@ -792,7 +799,7 @@ pub async fn stale_repoint(w: &World, line: &str, out: &mut Outcome) -> bool {
         out.hit(&format!("oracle:stale-repoint:{}:{}", p.key(), if warm_sig.starts_with("err") || warm_sig.contains("Some(\"err") { "error" } else { "served" }));
         if !ok {
             out.fail(Failure::new(
-                &format!("stale-repoint:{}", p.key()),
+                &(if through_legacy { "compat-legacy-forgery".to_string() } else { format!("stale-repoint:{}", p.key()) }),
                 &format!("[warm instance, cached generation gone, `meta/{k}` replaced by {src}] {} on `{k}` returned content that is not `{k}`'s (strict={})", p.name(), w.strict),
                 Some(line),
                 "an error, or the bytes / metadata written under this key",
@@ -800,7 +807,7 @@ pub async fn stale_repoint(w: &World, line: &str, out: &mut Outcome) -> bool {
             ));
         }
         if !cold_ok {
-            out.fail(Failure::new(&format!("stale-repoint-cold:{}", p.key()), &format!("[cold instance] {} on `{k}` after `{line}` returned foreign content", p.name()), Some(line), "an error, or the bytes written under this key", &cold_sig));
+            out.fail(Failure::new(&(if through_legacy { "compat-legacy-forgery".to_string() } else { format!("stale-repoint-cold:{}", p.key()) }), &format!("[cold instance] {} on `{k}` after `{line}` returned foreign content", p.name()), Some(line), "an error, or the bytes written under this key", &cold_sig));
         }
         // model: a warm read whose cached payload is gone re-resolves and then behaves exactly like a cold
         // read (`getObjectWarm_retry_eq_cold`)
@@ -895,7 +902,7 @@ pub async fn aligned_cut(w: &World, line: &str, out: &mut Outcome, mut model: Op
                 && size <= 4096
                 && let Some(m) = model.as_deref_mut()
             {
-                let ans = m.ask(&format!("ranges {size} {c} 0+{cut} {s}:{e}"));
+                let ans = crate::check::ask(m, out, &format!("ranges {size} {c} 0+{cut} {s}:{e}"));
                 let model_class = ans.split(' ').next().unwrap_or("").to_string();
                 let impl_class = if sig.starts_with("ok") { "ok".to_string() } else { sig.clone() };
                 out.model_compared += 1;
